@@ -444,12 +444,16 @@ package dnsmsg
 //@   props C01 C20
 //@   requires m != nil && forall(k, 0, len(m.Questions), m.Questions[k] != nil) && okRecs(m.Answers) && okRecs(m.Authorities) && okRecs(m.Additionals)
 //@   modifies *
+//@   ensures [C20:buffers-untouched] rootBytesKept()
 //@   loop 1:
 //@     invariant forall(k, 0, len(m.Questions), m.Questions[k] != nil) && okRecs(m.Answers) && okRecs(m.Authorities) && okRecs(m.Additionals)
+//@     invariant rootBytesKept()
 //@   loop 2:
 //@     invariant okRecs(m.Answers) && okRecs(m.Authorities) && okRecs(m.Additionals)
+//@     invariant rootBytesKept()
 //@   loop 3:
 //@     invariant okRecs(rs) && okRecs(m.Answers) && okRecs(m.Authorities) && okRecs(m.Additionals)
+//@     invariant rootBytesKept()
 
 //@ func UnpackMsg(msg []byte) (m *Msg, err error)
 //@   props C01 C02 C20
